@@ -80,8 +80,8 @@ WorkThread::WorkThread(event::Loop *main_loop) :
     d_(new Data)
 {
     d_->default_main_loop = main_loop;
-    d_->work_thread = std::thread(std::bind(&WorkThread::threadProc, this));
     d_->stop_flag = false;
+    d_->work_thread = std::thread(std::bind(&WorkThread::threadProc, this));
 }
 
 WorkThread::~WorkThread()
@@ -282,9 +282,11 @@ void WorkThread::cleanup()
             d_->task_pool.free(d_->undo_tasks_cabinet.free(token));
             d_->undo_tasks_token_deque.pop_front();
         }
+
+        //! 必须在锁内置位，否则工作线程可能在检查完条件、进入等待之前错过通知而永远等待
+        d_->stop_flag = true;
     }
 
-    d_->stop_flag = true;
     d_->cond_var.notify_all();
 
     d_->work_thread.join();
